@@ -496,6 +496,28 @@ fn var_encodings() -> Vec<(&'static str, fn(u32) -> Vec<u8>)> {
   vec![("LEB128", leb), ("decimal", dec), ("minimal little-endian", min_le), ("minimal big-endian", min_be), ("hexadecimal", hexa)]
 }
 
+
+/// pairs (epoch || prefix, t1) / (epoch, t2) with prefix || enc(t1) == enc(t2) for variable-width encodings
+pub fn framing_pairs() -> Vec<((Vec<u8>, u32), (Vec<u8>, u32), String)> {
+  let mut out = vec![];
+  for (ename, enc) in var_encodings() {
+    for t2 in [12u32, 120, 127, 128, 129, 255, 256, 300, 1000, 1234, 16383, 16384] {
+      let full = enc(t2);
+      for k in 1..full.len() {
+        for t1 in [1u32, 2, 3, 4, 5, 7, 8, 9, 12, 16, 20, 23, 34, 100, 127, 128, 234, 256, 300, 512, 1000] {
+          if enc(t1) == full[k..] && t1 != t2 {
+            for base in [b"wk".to_vec(), b"1".to_vec(), vec![]] {
+              let e1 = [&base[..], &full[..k]].concat();
+              out.push(((e1, t1), (base.clone(), t2), format!("epoch || {}(threshold) splits two ways", ename)));
+            }
+          }
+        }
+      }
+    }
+  }
+  out
+}
+
 /// Distinctness under everything a canonicalisation or a variable-width framing could merge: for each base
 /// triple, every neighbour of the measurement, of the epoch, and every (epoch || prefix, t1) / (epoch, t2)
 /// pair in which prefix || enc(t1) == enc(t2) for a variable-width integer encoding.
@@ -545,6 +567,7 @@ fn run_neighbours(cx: &mut CaseCx, _case: &Value) {
   }
   pairs.retain(|(a, b, _)| a != b);
   cx.count("framing_pairs", pairs.iter().filter(|p| p.2.contains("splits two ways")).count() as u64);
+  let _ = framing_pairs;
   let seed = cx.seed;
   let res = par_map(&pairs, |i, (a, b, _)| {
     getrandom::verif::reset(seed ^ fnv_str("c04nb") ^ i as u64);
@@ -612,6 +635,25 @@ fn run_output_buffers(cx: &mut CaseCx, _case: &Value) {
         cx.count("buffer_probes", 1);
       }
       cx.nontrivial(fnv_str(&format!("{}|{}", i, t)));
+    }
+  }
+  // a buffer LONGER than 32 bytes (a client that carves the randomness out of a larger arena): refused, or its
+  // first 32 bytes are the 32-byte randomness
+  for len in [33usize, 48, 64, 100] {
+    let (m, e, t) = (b"arena".to_vec(), b"epoch".to_vec(), 2u32);
+    let mg = MessageGenerator::new(SingleMeasurement::new(&m), t, &e);
+    let want = rnd_of(&m, &e, t);
+    let mut buf = vec![0u8; len];
+    cx.eval();
+    match guard(|| mg.sample_local_randomness(&mut buf)) {
+      Ok(()) => {
+        if buf[..32] != want {
+          cx.viol("C04/randomness-depends-on-buffer-length", format!("sample_local_randomness into a {}-byte buffer is accepted, but its first 32 bytes are not the randomness a client with a 32-byte buffer obtains for the same triple", len), json!({"buffer_len": len}));
+          return;
+        }
+        cx.count("oversized_buffer_consistent", 1);
+      }
+      Err(_) => cx.count("oversized_buffer_refused", 1),
     }
   }
   cx.outcome("output buffers");
@@ -894,7 +936,7 @@ pub fn spec() -> PropSpec {
         rule: "clients are separate PROCESSES: 12 fresh processes that each perform a different first operation (nothing, PPOPRF blind / finalize / eval / verify, local randomness or share of ANOTHER triple, a report, an adss share, GGM eval, field inversion) and then derive randomness, tag, key, share (same entropy) and report for the same three triples: identical in all of them",
         gen: |_| vec![json!({})],
         run: |cx, _| crate::probe::process_order_check(cx, "C04", &|l: &str| l.starts_with("local randomness") || l.starts_with("tag") || l.starts_with("report") || l.starts_with("derive_ske_key") || l.starts_with("adss share")),
-        min_counts: &[("process_histories_agree", 11)],
+        min_counts: &[("process_histories_agree", 12)],
       },
       Check {
         name: "client-threads",
